@@ -57,7 +57,7 @@ def parse_length(attr_value: str) -> typing.Tuple[float, str]:
 _FAMILIES_ESCAPED_CHAR = re.compile(r"\\(.)")
 _SINGLE_QUOTE_PATTERN = "(?:'(?P<single_quote>(.+?)(?<!\\\\))')"
 _DOUBLE_QUOTE_PATTERN = "(?:\"(?P<double_quote>(.+?)(?<!\\\\))\")"
-_NO_QUOTE_PATTERN = "(?P<no_quote>(?:\\\\.|[^'\", ])(?:\\\\.|[^'\",])+)"
+_NO_QUOTE_PATTERN = "(?P<no_quote>(?:\\\\.|[^'\", ])(?:\\\\.|[^'\",])*)"
 
 _FONT_FAMILY_PATTERN = re.compile(
   "|".join(
@@ -78,7 +78,9 @@ def parse_font_families(attr_value: str) -> typing.List[str]:
 
     is_quoted = m.lastgroup in ("single_quote", "double_quote")
 
-    escaped_family = _FAMILIES_ESCAPED_CHAR.sub(r"\1", m.group(m.lastgroup))
+    family = m.group(m.lastgroup) if is_quoted else m.group(m.lastgroup).strip()
+
+    escaped_family = _FAMILIES_ESCAPED_CHAR.sub(r"\1", family)
 
     if not is_quoted and escaped_family in styles.GenericFontFamilyType.__members__:
       rslt.append(styles.GenericFontFamilyType(escaped_family))
